@@ -4,7 +4,7 @@ import os
 import tempfile
 
 from engine import gen_states, pool_map
-from readers import run_cli, write_text
+from readers import run_cli, write_text, workdir
 
 SEQS = {1: "AWCSG", 2: "C", 3: "GNtSW", 4: "TSGWA"}      # a one-base node (SNP allele), an ambiguous and a soft-masked base, the two
                                                       # IUPAC codes that are their own complement (S = C/G, W = A/T)
@@ -55,7 +55,7 @@ def run_case(job):
     cid, nodes, links, variant, k, gz = job
     from gaftools.gfa import GFA
 
-    d = tempfile.mkdtemp(prefix="c14_")
+    d = workdir("c14_", cid)
     try:
         gpath = os.path.join(d, "g.gfa" + (".gz" if gz else ""))
         write_text(gpath, gfa_text(nodes, links, variant), "gz" if gz else "plain")
